@@ -289,8 +289,12 @@ class FileResource:
             return None
         return (st.st_ino, st.st_mtime_ns, st.st_size, self.read_bytes())
 
+    def libname(self):
+        """The spelling of the file name handed to the library: absolute, or (relative mode) relative to the cwd."""
+        return os.path.relpath(self.path) if getattr(self, "relative", False) else self.path
+
     def make(self, clsname, **kw):
-        return cls(clsname)(filename=self.path, **kw)
+        return cls(clsname)(filename=self.libname(), **kw)
 
     def make_debris(self, clsname, content):
         """Let a real first save of `content` die (os._exit) at the moment it is about to rename/replace its
